@@ -148,6 +148,10 @@ def check(cfg, lines):
             if place.get(i) != ("edge", ed):
                 v("C03", "item %d taken from edge %d at %s while it is at %s" % (i, ed, t, place.get(i)))
             else:
+                fifo = ecfg[ed]["kind"] == "fleet" or (ecfg[ed].get("mode") == "FIFO" and len(ecfg[ed].get("delays", [0])) == 1)
+                if fifo and inside[ed][0] != i:
+                    v("C06", "item %d taken from FIFO edge %d at %s while item %d, which became available before it, is still inside" %
+                      (i, ed, t, inside[ed][0]))
                 inside[ed].remove(i)
                 if ecfg[ed]["kind"] == "fleet" and t_put[i] and t < t_put[i][-1][0] + 2 * ecfg[ed]["transit"]:
                     v("C14", "item %d left fleet edge %d at %s, less than a round trip (2 x %s) after it was loaded at %s" %
